@@ -26,12 +26,23 @@ type C15Params struct {
 	Expiry bool
 	// QueueCap > 0: both clearance queues hold only that many waiting requests, so that further submitters find the queue full
 	QueueCap int
+	// Hold: every medium/low body keeps its slot until the root releases it; the root releases the running bodies one at a
+	// time and lets the system go idle in between, so that as many bodies as possible are inside at every moment
+	Hold bool
+	// FullCh: an error reporting channel is registered, is full and nobody reads it (reporting a panic must not block)
+	FullCh bool
 }
 
 func (p C15Params) Name() string {
 	n := fmt.Sprintf("c15/limit=%d/%s/stopduring=%v/expiry=%v", p.Limit, strings.Join(p.Tasks, ","), p.StopDuring, p.Expiry)
 	if p.QueueCap > 0 {
 		n += fmt.Sprintf("/queuecap=%d", p.QueueCap)
+	}
+	if p.Hold {
+		n += "/hold"
+	}
+	if p.FullCh {
+		n += "/fullch"
 	}
 	return n
 }
@@ -43,6 +54,8 @@ type c15state struct {
 	returned []bool
 	shutdown bool
 	maxGauge int
+	hold     []chan struct{}
+	released []bool
 }
 
 var c15 *c15state
@@ -52,7 +65,10 @@ func VerifC15(p C15Params) *vsched.Scenario {
 	sc := &vsched.Scenario{Name: p.Name(), MaxSteps: 80000}
 	sc.Reset = func() {
 		VerifResetWorld()
-		c15 = &c15state{ran: make([]int, len(p.Tasks)), returned: make([]bool, len(p.Tasks))}
+		c15 = &c15state{ran: make([]int, len(p.Tasks)), returned: make([]bool, len(p.Tasks)), released: make([]bool, len(p.Tasks))}
+		for range p.Tasks {
+			c15.hold = append(c15.hold, make(chan struct{}))
+		}
 	}
 	sc.Body = func() {
 		s := c15
@@ -60,6 +76,11 @@ func VerifC15(p C15Params) *vsched.Scenario {
 		if err := Start(); err != nil {
 			verifFail("harness", "start", "Start failed: %v", err)
 			return
+		}
+		if p.FullCh {
+			reports := make(chan *ModuleError, 1)
+			reports <- &ModuleError{Message: "filler"}
+			SetErrorReportingChannel(reports)
 		}
 		SetMaxConcurrentMicroTasks(p.Limit)
 		vsched.Quiesce()
@@ -72,6 +93,10 @@ func VerifC15(p C15Params) *vsched.Scenario {
 			// the scheduler is parked (nothing is waiting): nobody holds the old channels
 			mediumPriorityClearance = make(chan chan struct{}, p.QueueCap)
 			lowPriorityClearance = make(chan chan struct{}, p.QueueCap)
+			// the idle scheduler sits in a select on the OLD channels, offering a task time slot: take one slot so that it
+			// goes round its loop and waits on the new channels
+			<-taskTimeslot
+			vsched.Quiesce()
 		}
 
 		body := func(k int, prio, outcome string) func(context.Context) error {
@@ -92,6 +117,9 @@ func VerifC15(p C15Params) *vsched.Scenario {
 				vsched.Ev(fmt.Sprintf("begin:%d", k))
 				if p.Expiry && prio == "m" {
 					<-release // keeps its slot until the maximum delays of the waiting tasks have expired
+				}
+				if p.Hold && prio != "h" {
+					<-s.hold[k]
 				}
 				vsched.Point("microtask-work")
 				vsched.Ev(fmt.Sprintf("end:%d", k))
@@ -193,6 +221,32 @@ func VerifC15(p C15Params) *vsched.Scenario {
 				s.returned[k] = true
 			}()
 		}
+		if p.Hold {
+			// release the bodies that are inside one at a time; the clock stays at 0 (the root never blocks)
+			vsched.Quiesce()
+			for {
+				k := -1
+				for i := range p.Tasks {
+					if s.ran[i] > 0 && !s.released[i] {
+						k = i
+						break
+					}
+				}
+				if k < 0 {
+					break
+				}
+				s.released[k] = true
+				close(s.hold[k])
+				vsched.Quiesce()
+			}
+			for i := range p.Tasks {
+				if !s.released[i] {
+					// never begun while the others were held: let it go when it does
+					s.released[i] = true
+					close(s.hold[i])
+				}
+			}
+		}
 		if p.Expiry {
 			// let the maximum delays (1s medium, 3s low) of the waiting tasks expire, then free the slots
 			vsched.Advance(5 * time.Second)
@@ -264,6 +318,9 @@ func VerifC15(p C15Params) *vsched.Scenario {
 		}
 		if r.Deadlock {
 			out = append(out, vsched.Issue{Clause: "no-deadlock", Disc: "deadlock", Detail: "blocked: " + strings.Join(r.Blocked, " | ")})
+		}
+		if r.StepLimit {
+			out = append(out, vsched.Issue{Clause: "every-microtask-runs-exactly-once", Disc: "never-finishes", Detail: fmt.Sprintf("the execution did not finish within %d scheduler steps (a complete execution takes a few hundred): a submitter or microtask never returns", sc.MaxSteps)})
 		}
 		return out
 	}
